@@ -209,8 +209,17 @@ def driver_batch(requests):
 def gen_cases(binname, args, seed, profile="release", timeout=3600):
     """Run a harness generator; returns list of (request, impl, specreq or None)."""
     env = dict(ENV, VERIF_SEED=str(seed))
-    r = subprocess.run([harness_bin(binname, profile)] + [str(a) for a in args],
-                       capture_output=True, text=True, env=env, timeout=timeout)
+    for attempt in range(30):
+        try:
+            r = subprocess.run([harness_bin(binname, profile)] + [str(a) for a in args],
+                               capture_output=True, text=True, env=env, timeout=timeout)
+            break
+        except (FileNotFoundError, PermissionError, OSError) as e:
+            # the binary is being relinked by a concurrent `cargo build` of the same harness (other checks share
+            # the target directory): wait for the linker instead of reporting a broken correspondence
+            if attempt == 29 or not isinstance(e, (FileNotFoundError, PermissionError)) and getattr(e, "errno", None) != 26:
+                raise
+            time.sleep(2)
     if r.returncode != 0:
         raise RuntimeError("harness %s %s failed rc=%s: %s" % (binname, args, r.returncode, r.stderr[:2000]))
     cases = []
